@@ -10,5 +10,6 @@ import (
 	_ "verifharness/props/c15"
 	_ "verifharness/props/c17"
 	_ "verifharness/props/c18"
+	_ "verifharness/props/c19"
 	_ "verifharness/props/c20"
 )
